@@ -36,10 +36,12 @@ def run_C18(ctx, rep):
     uf_rules.check_U7(ctx, rep, 'trrel_union_find')
     uf_rules.check_U4(ctx, rep)
     uf_rules.check_U8(ctx, rep)
+    uf_rules.check_U10(ctx, rep, TR, ('set_connections', 'reverse_set_connections'))
+    uf_rules.check_U9(ctx, rep)
     uf_rules.check_U5(ctx, rep)
     byods_rules.check_L16(ctx, rep, ['trrel_union_find', 'union_find'])
     byods_rules.check_L17(ctx, rep)
-    rep.floor('U1', 6, 'reads of elem_ids / items'); rep.floor('U2', 3); rep.floor('U3', 2); rep.floor('U4', 1); rep.floor('U5', 3); rep.floor('U6', 2); rep.floor('U7', 1); rep.floor('U8', 2)
+    rep.floor('U1', 6, 'reads of elem_ids / items'); rep.floor('U2', 3); rep.floor('U3', 2); rep.floor('U4', 1); rep.floor('U5', 3); rep.floor('U6', 2); rep.floor('U7', 1); rep.floor('U8', 2); rep.floor('U9', 4); rep.floor('U10', 2)
     rep.floor('L16', 3); rep.floor('L17', 1)
 
 
@@ -489,7 +491,7 @@ PROPS = {
     },
     'C18': {
         'run': run_C18, 'corpus': False, 'level': 'other',
-        'explanation': 'NOT the behaviour over operation histories (value-level, out of reach of a static argument) but eight structural clauses every '
+        'explanation': 'NOT the behaviour over operation histories (value-level, out of reach of a static argument) but ten structural clauses every '
                        'correct answer of TrRelUnionFind / EqRel / uf::UnionFind depends on, decided on the typed HIR: U1 a class id read from the lazily '
                        'maintained element table (`elem_ids`, `items`) goes through the find function (get_dominant_id* / Elems::find, or a method that '
                        'resolves its id parameter first) before it indexes `sets`, keys a connection table or is handed out (taint over let / match / '
@@ -499,6 +501,8 @@ PROPS = {
                        'U6 a class-level edge whose insertion into `set_connections` is tested for novelty is mirrored into `reverse_set_connections` with the ends swapped; '
                        'U7 the two branches of the size-dispatched set subtraction (remove-loop / retain) compute the same difference; '
                        'U8 a fresh element of uf is its own root and ring under the id of its slot (id = self.next() taken before the vector push, returned, and filed in `items`); '
+                       'U9 Elem::union puts `other` under self\'s root and exchanges the ring pointers, each branch of union_by_rank returns the parent of the receiver of union, union_internal returns the find result it compared the new root with; '
+                       'U10 a query that appends its own class id to the ids of a class-edge table entry has filtered that id out first (each class once); '
                        'U4 the linking step of uf (Elem::union_by_rank) is applied to the `.elem` of two Elems::find results taken for two different ids; '
                        'U5 Elems::find hands out (id, elem) only under `id == elem.parent` for the element fetched for id, and redirects parent pointers '
                        'only to ids read from parent pointers; L16 find follows subsumption chains; L17 siblings agree on resolving their id parameter. '
